@@ -120,6 +120,12 @@ PROPS["C16"] = dict(streams=[REWARDS, CREWARDS], rule=PROV_RULE + "; crewards st
                                "consumer: the ICS-20 keeper is scripted (escrows the tokens, can be made to fail); refunds of failed transfers are ibc-go's and are scripted as escrow -> send buffer; provider-originated (ibc/...) reward denoms and the democracy distribution wrapper (x/ccv/democracy/distribution) are not exercised"],
     fields=r"^begin\.(pool|distr|cp|reward-effects)|^c\d+\.alloc|^reward\.|^cons\.(fc|redis|tosend|escrow|ltbh|transfers)")
 
+# more consumers due at once than the per-block limit of the three time queues (launch, infraction
+# parameters, removal); one scripted history per seed (201..209 consumers), slow (about 3 minutes)
+BULK = dict(name="bulk", quick=(1, 1), thorough=(3, 1))
+for _p in ("C10", "C11", "C20"):
+    PROPS[_p]["streams"] = PROPS[_p]["streams"] + [BULK]
+
 NOT_APPLICABLE = {
     "C07": "not claimed in this round: the harness does not yet construct real signed duplicate-vote evidence / conflicting headers; the technique applies (decision logic + frame), slice not built (DESIGN.md §10)",
 }
